@@ -217,10 +217,13 @@ func checkC02(e *core.Env) {
 				e.Count("calibrated_out", 1)
 				continue
 			}
-			run, ok, _ := execScript(c, sc, nil)
+			run, ok, dump := execScript(c, sc, nil)
 			if !ok {
-				e.Inconclusive("C02 %s %s: watchdog", c.Name, sc.Shape())
+				hangVerdict(e, "C02", cs, c, sc, run, dump)
 				continue
+			}
+			if p := reachProblem(cs, c, sc, run); p != "" {
+				e.Violate(fmt.Sprintf("%s/%s/never-reached-handler", c.Name, kindClass(kind)), p, witness(run))
 			}
 			e.Eval(fmt.Sprintf("%s|%s|%s|%d|%s|%d", c.Name, kind, sc.Ret.How, sc.Ret.Code, statusMsgClass(sc.Ret.Msg), len(sc.Handler)), sc.Ret.How != "ok" && sc.Ret.How != "")
 			e.Count("events", int64(len(run.Events())))
